@@ -6,6 +6,7 @@ package oidc
 
 //@ import oidcv1 "github.com/istio-ecosystem/authservice/config/gen/go/v1/oidc"
 //@ import configv1 "github.com/istio-ecosystem/authservice/config/gen/go/v1"
+//@ import nethttp "net/http"
 
 // package invariants: the hash fields the Redis store asks for (established by the package initialiser)
 //@ invariant rediskeys: len(deref(tokenResponseKeys)) == 5 && deref(tokenResponseKeys)[0] == "id_token" && deref(tokenResponseKeys)[1] == "access_token" && deref(tokenResponseKeys)[2] == "refresh_token" && deref(tokenResponseKeys)[3] == "access_token_expiry" && deref(tokenResponseKeys)[4] == "time_added"
@@ -388,14 +389,17 @@ package oidc
 // ---------------------------------------------------------------------------------------------
 
 //@ impl (*DefaultJWKSProvider) JWKSProvider (j, k)
-//@   requires wf: j != nil && j.log != nil
+//@   requires wf: j != nil && j.log != nil && j.cache != nil && j.tlsPool != nil
+//@   private ghost PoolAdded, ghost HashIn, above(watermark())
 
 //@ func (*DefaultJWKSProvider).fetchStatic
 //@   requires wf: j != nil && j.log != nil
 //@   ensures  parsed: result1 == nil ==> result0 != nil && result0 == JwkParsed(raw)
 
 //@ func (*DefaultJWKSProvider).fetchDynamic
-//@   abstractbody
+//@   requires wf: j != nil && j.log != nil && j.cache != nil && j.tlsPool != nil && config != nil && config.GetJwksFetcher() != nil
+//@   assumes default_transport: istype(deref(nethttp.DefaultTransport), *nethttp.Transport) && deref(nethttp.DefaultTransport).(*nethttp.Transport) != nil
+//@   modifies ghost PoolAdded, ghost HashIn, above(watermark())
 //@   ensures  fetched: result1 == nil ==> result0 != nil && JwksFetched(config.GetJwksFetcher().JwksUri, result0)
 
 // ---------------------------------------------------------------------------------------------
